@@ -17,6 +17,11 @@ CLAIMED = {
     text='Decides: all 256 CRC table entries equal the remainder of i*x^24 by the Mode S generator; a frame goes on to DF decoding only in states that exclude DF 17 or have checksum 0, and the CRC error is raised only with id 17 and checksum >= 1; the checksum is computed over all 7/14 frame bytes in order and is the value stored as Message.crc and as the address/parity field of DF 0, 4, 5, 16, 20, 21; index obligations of modes_checksum. Does NOT decide that the byte loop computes polynomial division, nor the 1-2 bit / 24-bit burst clause (algebra over all frames).',
     note='Static rule check, clause-limited as stated. Trusted: rustc constant evaluation and MIR, deku read contracts, the abstract interpreter.',
     ref='DESIGN.md §7 C02'),
+ 'C04': dict(level='other', engine='absint',
+    technique='decision-list extraction from branch facts (path enumeration of a comparison-only function) compared with the NL formula; parity facts and float intervals at the result construction sites',
+    text='Decides: nl() is, for every latitude (both signs, NaN), the 59-band NL table whose breakpoints equal the formula to the table\'s 8 decimals; airborne_position builds a position only in states where the two reports have opposite parity (both orders), the returned latitude interval is within [-90, 90] and NaN-free, and its integer arithmetic cannot panic. Does NOT decide the 10 m accuracy, longitude in [-180, 180), nor "None only when the NL bands differ".',
+    note='Static rule check, clause-limited as stated. CPR fields are taken as 17-bit values (what the deku readers produce). Trusted: MIR, float interval arithmetic with outward rounding, libm::floor model.',
+    ref='DESIGN.md §7 C04'),
  'C13': dict(level='other', engine='absint+terms',
     technique='guarded-operation tables extracted from branch facts of the abstract interpreter; per-input-class normal forms (affine over a bit-provenance map) compared with the standard; lossy-cast obligations',
     text='Decides for every code, by classes rather than samples: decode_id13 is the Annex 10 bit permutation with result bits within 0x7777; gray2alt decodes the 500-ft counter with the reflected-Gray prefix masks and, for each of the 8 classes of the C bits and each parity of the 500-ft counter, returns 5*F + d - 13 with the standard 100-ft digit (illegal C bits only give Err, results are non-negative); AC13Field::read and decode_ac12 return 25*N - 1000 with N the code minus Q (and M) exactly for N >= 41, feed decode_id13 with the code (M re-inserted for the 12-bit field), and contain no value-changing integer cast.',
